@@ -719,44 +719,6 @@ def work_outputs(chunk):
     return acc
 
 
-# -- rows are independent ------------------------------------------------------------------------------
-# entry [i, j] is a statement about f_i alone: the row of a stacked map must not depend on which other components are
-# stacked with it (a decision taken for the whole table instead of per entry shows here)
-
-def work_rows(chunk):
-    import numdifftools as nd
-    acc = fw.Acc()
-    for spec, ptk, method, order in chunk:
-        family, out, m, n, k, variant = spec
-        fun = ridge.make_fun(spec)
-        x = np.array(ridge.point(ptk, n), dtype=float)
-        status, full = call(lambda: nd.Jacobian(fun, method=method, order=order, full_output=True)(x))
-        if status != 'ok':
-            continue           # reported by the Jacobian part
-        J, info = full
-        J, est = np.asarray(J), np.asarray(info.error_estimate)
-        prob = None
-        for i in range(m):
-            # the same component together with a component that does not depend on x at all (zero row)
-            def pair(t, i=i):
-                return np.array([fun(t)[i], 1.0 + 0.0 * t[0]])
-            status, r = call(lambda: nd.Jacobian(pair, method=method, order=order, full_output=True)(x))
-            if status != 'ok':
-                prob = 'row %d stacked with a constant component: %s' % (i, r)
-                break
-            Ji, ei = np.asarray(r[0]), np.asarray(r[1].error_estimate)
-            if not (bits_equal(Ji[0], J[i]) and bits_equal(ei[0], est[i])):
-                prob = ('row %d of the %d-row map: %r (estimates %r); the same component stacked with a constant one: %r '
-                        '(estimates %r)' % (i, m, J[i].tolist(), est[i].tolist(), Ji[0].tolist(), ei[0].tolist()))
-                break
-        acc.case(('rows', spec, ptk, method, order), nontrivial=True, cell='rows/%s' % method, outcome=prob is None)
-        if prob:
-            acc.violation('C03:Jacobian:row-depends-on-other-components:%s' % method,
-                          dict(part='rows', spec=list(spec), point=ptk, method=method, order=order),
-                          'Jacobian(f, method=%r, order=%d)(%r), f = %s: %s' % (method, order, x.tolist(), ridge.describe(spec), prob), m * 10 + n)
-    return acc
-
-
 # -- aliased coarse steps ------------------------------------------------------------------------------
 # sin(2 pi k t) with integer k >= 8: the five largest default steps 2, 1, 1/2, 1/4, 1/8 are multiples of the half period,
 # so the coarse rows of the table agree on the wrong value 0 with a zero error estimate; the library's outlier test
@@ -846,9 +808,6 @@ def run(ctx):
     items = [(s, p) for s in sp for p in ridge.POINT_KINDS]
     items.sort(key=lambda it: -(it[0][2] * it[0][3] * it[0][4] + (10 * it[0][3] if it[0][1] == 'scalar' else 0)))
     acc = ctx.pmap(work, items, chunk=1, tier=ctx.tier)
-    rows = [(sp_, p, me, o) for sp_ in sp if sp_[1] == 'vector' and sp_[2] in (2, 3) and sp_[3] in (1, 2, 3) for p in ridge.POINT_KINDS
-            for me in METHODS for o in ORDERS]
-    acc.merge(ctx.pmap(work_rows, rows, chunk=8))
     acc.merge(ctx.pmap(work_aliased, [(k, me, o, c) for k in (8, 16) for me in ('central', 'forward', 'backward') for o in ORDERS
                                       for c in ('zero-entry', 'ordinary')], chunk=3))
     acc.merge(ctx.pmap(work_outputs, [(c, m, o) for c in ('Jacobian', 'Gradient') for m in METHODS for o in ORDERS], chunk=2))
@@ -913,10 +872,6 @@ def replay(case):
         a = work_aliased([(case['k'], case['method'], int(case['order']), case['companion'])])
         bad = [r['detail'] for k, (n, recs) in a.viol.items() for r in recs]
         return not bad, '%r -> %s' % (case, bad or 'resolved')
-    if case.get('part') == 'rows':
-        a = work_rows([(tuple(case['spec']), case['point'], case['method'], int(case['order']))])
-        bad = [r['detail'] for k, (n, recs) in a.viol.items() for r in recs]
-        return not bad, '%r -> %s' % (case, bad or 'rows independent')
     if case.get('part') == 'outputs':
         a = work_outputs([(case['cls'], case['method'], int(case['order']))])
         bad = [r['detail'] for k, (n, recs) in a.viol.items() for r in recs]
